@@ -88,7 +88,7 @@ theorem cost_eq {m : Mol} (hW : WInv m) (a : Nat) :
 
 /-! ### sums over `range n` -/
 
-theorem sum_map_add {α} (l : List α) (f g : α → Nat) :
+theorem sum_map_addC {α} (l : List α) (f g : α → Nat) :
     (l.map fun x => f x + g x).sum = (l.map f).sum + (l.map g).sum := by
   induction l with
   | nil => rfl
@@ -111,7 +111,7 @@ theorem sum_map_zero {α} (l : List α) (f : α → Nat) (h : ∀ x ∈ l, f x =
     simp only [List.map_cons, List.sum_cons]
     rw [h x (by simp), ih (fun y hy => h y (by simp [hy]))]
 
-theorem sum_map_const_one {α} (l : List α) : (l.map fun _ => 1).sum = l.length := by
+theorem sum_map_const_oneC {α} (l : List α) : (l.map fun _ => 1).sum = l.length := by
   induction l with
   | nil => rfl
   | cons x l ih => simp only [List.map_cons, List.sum_cons, List.length_cons, ih]; omega
@@ -143,7 +143,7 @@ theorem chain_sum_swap (c : Nat → Nat) (n : Nat) : ∀ (L : List DirBond),
   | b :: L, h => by
     have ih := chain_sum_swap c n L (fun b hb => h b (by simp [hb]))
     simp only [List.map_cons, List.sum_cons, Nat.add_mul]
-    rw [sum_map_add, ← ih]
+    rw [sum_map_addC, ← ih]
     congr 1
     cases hr : b.ring with
     | true =>
@@ -162,7 +162,7 @@ theorem chain_sum_swap (c : Nat → Nat) (n : Nat) : ∀ (L : List DirBond),
 
 theorem wsum_add (f g : DirBond → Nat) (adj : List (List DirBond)) :
     wsum (fun b => f b + g b) adj = wsum f adj + wsum g adj := by
-  unfold wsum; exact sum_map_add _ _ _
+  unfold wsum; exact sum_map_addC _ _ _
 
 theorem sum_rows (f : DirBond → Nat) (adj : List (List DirBond)) :
     (adj.map (rsum f)).sum = wsum f adj := by
@@ -176,7 +176,7 @@ theorem wsum_one (adj : List (List DirBond)) : wsum (fun _ => 1) adj = (adj.map 
   | cons r adj ih =>
     simp only [wsum_cons, List.map_cons, List.sum_cons, ih]
     congr 1
-    unfold rsum; exact sum_map_const_one r
+    unfold rsum; exact sum_map_const_oneC r
 
 theorem range_map_outRow (m : Mol) (g : List DirBond → Nat) :
     (List.range m.adj.length).map (fun a => g (m.outRow a)) = m.adj.map g := by
@@ -198,7 +198,7 @@ theorem cost_root_le {m : Mol} (hW : WInv m) {r : Nat} (hr : r ∈ m.roots) :
       n + m.totalOut + ((List.range n).map fun d => chainIn m.adj d * c d).sum := by
     have : (List.range n).map c = (List.range n).map (fun a => 1 + rsum (bcost c) (m.outRow a)) :=
       List.map_congr_left (fun a _ => cost_eq hW a)
-    rw [this, sum_map_add, sum_map_const_one, List.length_range]
+    rw [this, sum_map_addC, sum_map_const_oneC, List.length_range]
     have : (List.range n).map (fun a => rsum (bcost c) (m.outRow a)) = m.adj.map (rsum (bcost c)) := by
       have := range_map_outRow m (rsum (bcost c))
       rw [hW.lenA] at this; exact this
@@ -219,7 +219,7 @@ theorem cost_root_le {m : Mol} (hW : WInv m) {r : Nat} (hr : r ∈ m.roots) :
   have e2 : ((List.range n).map fun d => chainIn m.adj d * c d).sum + c r ≤ ((List.range n).map c).sum := by
     have hi := sum_indicator c r n
     rw [if_pos hrl] at hi
-    rw [← hi, ← sum_map_add]
+    rw [← hi, ← sum_map_addC]
     apply sum_map_le
     intro d hd
     have hdn : d < n := List.mem_range.mp hd
